@@ -45,7 +45,11 @@ func KernelPart() mc.Part {
 			hashes = append(hashes, h("hash", i))
 		}
 		stamps := []int64{1, 1700000000, 1 << 62}
-		whos := []sdk.AccAddress{mc.Addr("A"), mc.Addr("B"), sdk.AccAddress(h("long-address", 0))}
+		// two 20-byte accounts and two 32-byte ones (module-derived accounts are that long) that share their first 20
+		// bytes: the requester is an input in full
+		long1 := sdk.AccAddress(h("long-address", 0))
+		long2 := append(append(sdk.AccAddress{}, long1[:20]...), h("long-address", 1)[:12]...)
+		whos := []sdk.AccAddress{mc.Addr("A"), mc.Addr("B"), long1, long2}
 		type seedOpt struct {
 			seed   []byte
 			oracle bool
@@ -53,7 +57,7 @@ func KernelPart() mc.Part {
 		seeds := []seedOpt{{nil, false}, {bytes.Repeat([]byte{0x11}, 32), true}, {h("seed", 0), true}}
 
 		rep := mc.PartReport{Exhaustive: true, Bounds: map[string]interface{}{
-			"block_hashes": len(hashes), "timestamps": "1, 1700000000, 2^62", "requesters": "A, B, one 32-byte address",
+			"block_hashes": len(hashes), "timestamps": "1, 1700000000, 2^62", "requesters": "A, B, two 32-byte addresses sharing their first 20 bytes",
 			"oracle_seeds": "none, 32 x 0x11, sha256 value",
 		}}
 		seen := map[string]bool{}
@@ -165,6 +169,22 @@ func KernelPart() mc.Part {
 		}
 		evals += reordered
 		rep.Bounds["evaluation_orders"] = "hash>time>requester>seed and time>requester>seed>hash"
+		// the two long requesters differ only after their 20th byte: if no lattice point tells them apart the
+		// requester is not mixed in in full
+		sameLong, cmpLong := 0, 0
+		for k, v := range out {
+			if k[2] == 2 {
+				if o, ok := out[[4]int{k[0], k[1], 3, k[3]}]; ok {
+					cmpLong++
+					if o == v {
+						sameLong++
+					}
+				}
+			}
+		}
+		if cmpLong > 0 && sameLong == cmpLong {
+			add("C18/kernel/requester-not-mixed-in-full", "two requesters of 32 bytes that differ only after their 20th byte (%x…, %x…) got the same number at all %d lattice points", []byte(long1[20:24]), []byte(long2[20:24]), cmpLong)
+		}
 		for k, v := range out {
 			if k[0] > 0 {
 				if o, ok := out[[4]int{k[0] - 1, k[1], k[2], k[3]}]; ok && !bytes.Equal(hashes[k[0]], hashes[k[0]-1]) {
